@@ -27,6 +27,15 @@ func (o lruOp) sexp() string {
 	return N("dump")
 }
 
+// lruKey: key number 1 stands for the nil interface (a legal map key); every other number for itself.
+// Values are keyed the same way in the callback log.
+func lruKey(k int) interface{} {
+	if k == 1 {
+		return nil
+	}
+	return k
+}
+
 func implLRU(cap int, ops []lruOp) (res string, evictions int) {
 	res = guard(func() string {
 		c := valid.NewLRU(cap)
@@ -34,7 +43,7 @@ func implLRU(cap int, ops []lruOp) (res string, evictions int) {
 		c.SetDelCallBackFn(func(key, value interface{}) {
 			k, _ := key.(int)
 			if key == nil {
-				k = -1
+				k = 1
 			}
 			v, _ := value.(int)
 			fired = append(fired, N("p", I(int64(k)), I(int64(v))))
@@ -44,14 +53,14 @@ func implLRU(cap int, ops []lruOp) (res string, evictions int) {
 			fired = fired[:0]
 			switch o.kind {
 			case 's':
-				c.Store(o.k, o.v)
+				c.Store(lruKey(o.k), o.v)
 				outs[i] = N("cb", fired...)
 				evictions += len(fired)
 			case 'd':
-				c.Delete(o.k)
+				c.Delete(lruKey(o.k))
 				outs[i] = N("cb", fired...)
 			case 'g':
-				v, ok := c.Load(o.k)
+				v, ok := c.Load(lruKey(o.k))
 				if ok {
 					outs[i] = N("hit", I(int64(v.(int))))
 				} else {
